@@ -89,8 +89,37 @@ def build_classes():
 JFIELDS = ['_place', 'highest_cleared', 'highest_cleared_index', 'eliminated', 'dismissed', 'round_lim', 'consecutive_failures']
 
 
+J_REPR = {'_place', 'attempts_by_height', 'bib', 'category', 'consecutive_failures', 'dismissed', 'eliminated', 'first_name', 'gender',
+          'highest_cleared', 'highest_cleared_index', 'last_name', 'order', 'round_lim', 'team'}
+C_REPR = {'actions', 'bar_height', 'heights', 'in_jump_off', 'jumpers', 'jumpers_by_bib', 'ranked_jumpers', 'state', 'verbose'}
+_repr_ok = {}
+
+
+def check_representation(JSub, CSub):
+    """the class invariant and the abstraction function are stated over these instance fields; on a tree whose classes keep
+    their state differently (a field removed, renamed or turned into a derived property) the data-structure contract does
+    not apply as written: the symbolic units are then OUTSIDE the encoding (undecided), and only the stand-in through the
+    public API decides.  Fields ADDED by a change are found by the run itself (the symbolic objects do not have them)."""
+    k = (JSub.__mro__[1], CSub.__mro__[1])
+    if k not in _repr_ok:
+        why = None
+        try:
+            jr = set(vars(k[0](bib='A')))
+            cr = set(vars(k[1]()))
+            if J_REPR - jr:
+                why = 'Jumper no longer stores %s' % sorted(J_REPR - jr)
+            elif C_REPR - cr:
+                why = 'HighJumpCompetition no longer stores %s' % sorted(C_REPR - cr)
+        except Exception as e:
+            why = 'cannot instantiate the real classes: %s' % type(e).__name__
+        _repr_ok[k] = why
+    if _repr_ok[k]:
+        raise OutOfSubset('representation differs from the one the data-structure contract is stated over: %s' % _repr_ok[k])
+
+
 def mk_state(JSub, CSub, N, state, perm):
     """symbolic pre-state: N athletes, competition in `state`, ranked_jumpers in the order `perm`"""
+    check_representation(JSub, CSub)
     c = ctx()
     js = []
     for k in range(N):
